@@ -28,6 +28,7 @@ type c20Plan struct {
 	API     string   `json:"api"` // doredirects | get | post
 	Hops    []c20Hop `json:"hops"`
 	KeepAlive bool   `json:"keepalive"`
+	Body      string `json:"body_built_with,omitempty"` // string | postargs | stream
 }
 
 func init() { scenarios["C20"] = scenC20 }
@@ -42,12 +43,16 @@ var c20Hosts = map[string]string{
 	"other.org":            "10.20.0.6",
 	"deep.sub.example.com": "10.20.0.7",
 	"xexample.com":         "10.20.0.8",
+	// a dotted prefix in front of a look-alike: not a subdomain of example.com
+	"login.evilexample.com": "10.20.0.9",
+	"a.b.xexample.com":      "10.20.0.10",
 }
 
-var c20Names = []string{"example.com", "sub.example.com", "evilexample.com", "example.com.evil.net", "10.20.0.5", "other.org", "deep.sub.example.com", "xexample.com"}
+var c20Names = []string{"example.com", "sub.example.com", "evilexample.com", "example.com.evil.net", "10.20.0.5", "other.org", "deep.sub.example.com", "xexample.com", "login.evilexample.com", "a.b.xexample.com"}
 
 func scenC20(e *Env) func() {
 	p := &c20Plan{Initial: Pick(e, "example.com", "example.com", "sub.example.com", "10.20.0.5"), Method: Pick(e, "GET", "POST", "POST", "PUT", "HEAD"), Max: Pick(e, 1, 2, 3, 5, 8), API: Pick(e, "doredirects", "doredirects", "doredirects", "get", "post"), KeepAlive: e.Bool()}
+	p.Body = Pick(e, "string", "string", "postargs", "stream")
 	n := e.Range(1, 6)
 	for i := 0; i < n; i++ {
 		p.Hops = append(p.Hops, c20Hop{Status: Pick(e, 301, 302, 303, 307, 308), Host: c20Names[e.Int(len(c20Names))], Form: Pick(e, "absolute", "absolute", "scheme-relative", "host-relative", "relative", "userinfo", "upper", "port"), EOF1: e.Chance(10)})
@@ -155,8 +160,18 @@ func c20Run(e *Env, p *c20Plan) {
 	}
 	req.Header.Set("X-Plain", "not-secret")
 	if p.Method == "POST" || p.Method == "PUT" {
-		req.SetBodyString("the-request-body")
-		req.Header.SetContentType("text/x-body")
+		switch p.Body {
+		case "postargs":
+			req.PostArgs().Set("field", "the-request-body")
+			req.PostArgs().Set("other", "x")
+			req.Header.SetContentType("application/x-www-form-urlencoded")
+		case "stream":
+			req.SetBodyStream(strings.NewReader("the-request-body"), 16)
+			req.Header.SetContentType("text/x-body")
+		default:
+			req.SetBodyString("the-request-body")
+			req.Header.SetContentType("text/x-body")
+		}
 	}
 	var err error
 	max := p.Max
